@@ -137,7 +137,10 @@ class _Run(object):
 
   def _cb(self, kind):
     def f(m):
-      n = _un(m.name)
+      try:
+        n = _un(m.name)
+      except Exception:            # not a Member (e.g. None): still a notification the consumer received
+        n = -1
       r = False
       if self.armed > 0:
         self.armed -= 1
@@ -258,9 +261,13 @@ def monitor(case, obs):
   skipped = set()              # members whose read found nothing and whose absence no later notification has shown
   prev = {'pending': [], 'cw': 0, 'parked': None, 'tree': None}
   checked = 0
+  out_of_scope = avoided()
   for i, (op, st) in enumerate(zip(case['ops'], obs['steps'])):
     k = op[0]
-    # --- schedule families (used only to name a violation, never to excuse one) -------------------
+    # --- schedule families: used to name a violation; a history that enters a family which this
+    # configuration does not generate (an open finding awaiting the decision to fix or list it, see
+    # avoided()) is judged only up to that point, so that shrinking a failing history cannot drift
+    # into the open finding and report that instead ---------------------------------------------
     if k in ('mkp', 'rmp') and st.get('eff') and 'data' in prev['pending'] and 'g3' not in pats:
       pats.append('g3')
     if k == 'mk' and st.get('eff') and op[1] in skipped and 'g2' not in pats:
@@ -268,6 +275,8 @@ def monitor(case, obs):
     if (k == 'deliver' and st.get('kind') == 'data' and st['tree'] is None and started
             and (busy or prev['parked'] is not None) and 'g1' not in pats):
       pats.append('g1')
+    if any(p in out_of_scope for p in pats):
+      return v
     if k == 'start' and 'exc' not in st:
       started = True
     if k in ('start', 'deliver') and st['cw'] > prev['cw']:
@@ -436,11 +445,11 @@ def gen_cases(tier, seed):
   avoid = avoided()
   out = [dict(c) for c in HAND]
   quick = tier == 'quick'
-  for names, filt, depth, limit in ([([0, 1], [], 8 if quick else 11, 700 if quick else 9000),
+  for names, filt, depth, limit in ([([0, 1], [], 8 if quick else 12, 700 if quick else 9000),
                                      ([0, 2], [2], 7 if quick else 9, 250 if quick else 2500)]):
     for ops in _cover_traces(depth, avoid, names, filt, limit):
       out.append({'kind': 'cover', 'filtered': filt, 'ops': ops})
-  n = 500 if quick else 9000
+  n = 800 if quick else 13000
   for i in range(n):
     out.append(_random_trace(C.case_rng(seed, PID, i), avoid))
   if avoid != set(AVOID_DEFAULT):
